@@ -290,8 +290,10 @@ void TraceRecorder::saveLog(const char *logFile, const char *processName)
     ++nextTid;
   }
   // We need to remove the last , we output to ensure the JSON array is correct
-  // Overwrite it with the ] character.
-  fout.seekp(-1, std::ios::cur);
+  // Overwrite it with the ] character. If no element was written there is only
+  // the opening bracket, which has to stay.
+  if (fout.tellp() > std::streampos(1))
+    fout.seekp(-1, std::ios::cur);
   fout << "]";
 }
 
